@@ -164,6 +164,22 @@ func schedHarness(desc []string) (sched.Harness, error) {
 				return "", fmt.Sprintf("%d codewords", len(got))
 			}
 		}}, nil
+	case "S3e": // one whole qr.Encode per version (default schedule + probes only): S3e <version>
+		v := atoi(desc[1])
+		content := string(qrFill(2, qrCap(2, v%4, v)))
+		lv := qrLevels[v%4]
+		var want string
+		underSched(func() { qr.VerifReset(); want = observe(qr.Encode(content, lv, qr.AlphaNumeric)) })
+		return sched.Harness{Name: name, Policy: sched.ThreadLevel, ProbesOnly: true, Setup: func() ([]func(), func(*sched.Exec) (string, string)) {
+			qr.VerifReset()
+			var got string
+			return []func(){func() { got = observe(qr.Encode(content, lv, qr.AlphaNumeric)) }}, func(x *sched.Exec) (string, string) {
+				if got != want || got == "error" {
+					return fmt.Sprintf("qr.Encode of a version %d symbol observed %s, under the default schedule %s", v, got, want), ""
+				}
+				return "", "ok"
+			}
+		}}, nil
 	case "S3d": // a whole qr.Encode: S3d <level> <mode> <content>
 		lvl, mode, content := atoi(desc[1]), atoi(desc[2]), desc[3]
 		// reference: the same call alone in a freshly started process
@@ -367,19 +383,36 @@ func racePass(c *core.Ctx) {
 		return
 	}
 	gcounts := []int{2, 8, 64}
-	procs := []int{1, 2, 4, 16}
+	procs := []int{1, 2, 3, 4, 5, 6, 7, 16}
+	// baselines (written by check.sh): every operation once, sequentially, in a process with GOMAXPROCS=1
+	baseFile := map[string]string{}
+	for _, mode := range []string{"mixed", "qr", "rs", "same", "qrall"} {
+		f := fmt.Sprintf("%s/racebase.%s.json", os.Getenv("VERIF_RACEBASE"), mode)
+		if st, err := os.Stat(f); err != nil || st.Size() < 3 {
+			c.R.NotDone("S4: no GOMAXPROCS=1 baseline for mode %s", mode)
+			continue
+		}
+		baseFile[mode] = f
+	}
 	for _, g := range gcounts {
 		for _, p := range procs {
-			for _, mode := range []string{"mixed", "qr", "rs", "same"} {
+			for _, mode := range []string{"mixed", "qr", "rs", "same", "qrall"} {
 				if mode == "same" && g > 8 {
 					continue // "same" runs every operation in g goroutines at once (g x ~75 goroutines)
+				}
+				if (mode == "qrall" && (g != 64 || (p != 1 && p != 4 && p != 7))) || (p%2 == 1 && p > 1 && mode != "qr" && mode != "qrall") {
+					continue // odd processor counts: the QR modes only (worker-pool arithmetic); qrall is slow under -race
 				}
 				if !c.Mine() {
 					continue
 				}
 				cs := &core.Case{Fam: "race", Ops: []string{mode}, P: []int{g, p}}
 				c.Begin(cs)
-				cmd := exec.Command(bin, "-mode", mode, "-goroutines", strconv.Itoa(g))
+				args := []string{"-mode", mode, "-goroutines", strconv.Itoa(g)}
+				if baseFile[mode] != "" {
+					args = append(args, "-baseline", baseFile[mode])
+				}
+				cmd := exec.Command(bin, args...)
 				cmd.Env = append(os.Environ(), "GOMAXPROCS="+strconv.Itoa(p), "GORACE=halt_on_error=0 exitcode=66")
 				out, err := cmd.CombinedOutput()
 				c.End()
@@ -407,7 +440,8 @@ func evalRace(c *core.Ctx, cs *core.Case) {
 	if bin == "" {
 		return
 	}
-	cmd := exec.Command(bin, "-mode", cs.Ops[0], "-goroutines", strconv.Itoa(cs.P[0]))
+	f := fmt.Sprintf("%s/racebase.%s.json", os.Getenv("VERIF_RACEBASE"), cs.Ops[0])
+	cmd := exec.Command(bin, "-mode", cs.Ops[0], "-goroutines", strconv.Itoa(cs.P[0]), "-baseline", f)
 	cmd.Env = append(os.Environ(), "GOMAXPROCS="+strconv.Itoa(cs.P[1]), "GORACE=halt_on_error=0 exitcode=66")
 	if out, err := cmd.CombinedOutput(); err != nil {
 		c.Fail("C16", cs, "free-running pass failed: %v\n%s", err, firstLines(string(out), 40))
@@ -432,6 +466,12 @@ func c16Body(c *core.Ctx) {
 					}
 				}
 			}
+		}
+	}
+	if !T {
+		// three overlapping calls (lost wake-ups and the like need a third party): a few tuples at bound 1
+		for _, tup := range [][3]string{{"3", "1", "2"}, {"2", "2", "2"}, {"1", "2", "3"}, {"3", "3", "1"}} {
+			exploreUnit(c, []string{"S1", "0", tup[0], tup[1], tup[2]}, 1, false)
 		}
 	}
 	// S2: pairs (thorough: also triples) of top-level calls on cold package state
@@ -503,12 +543,18 @@ func c16Body(c *core.Ctx) {
 		}
 		exploreUnit(c, []string{"S3d", "0", cm[0], cm[1]}, b, false)
 	}
+	// S3e: one symbol of every version under the scheduler (default + reversed/rotated orders): every
+	// version-dependent loop must hand all its goroutines back
+	for v := 1; v <= 40; v++ {
+		exploreUnit(c, []string{"S3e", strconv.Itoa(v)}, 0, false)
+	}
 	// S4
 	racePass(c)
-	c.R.Bound("S1", fmt.Sprintf("2 threads x degrees {1,2,3}^2 on GF(256) and GF(16), preemption bound %d (thorough: also 3 threads, bound 2); scheduling point before every statement of reedsolomon.go", b1))
+	c.R.Bound("S1", fmt.Sprintf("2 threads x degrees {1,2,3}^2 on GF(256) and GF(16), preemption bound %d (plus four 3-thread tuples at bound 1; thorough: all 3-thread tuples at bound 2); scheduling point before every statement of reedsolomon.go", b1))
 	c.R.Bound("S2", fmt.Sprintf("all unordered pairs (thorough: triples) of %v from cold package state, group-level policy, preemption bound %d", s2, b2))
 	c.R.Bound("S3", "every schedule (iterative bounding continued until no alternative is cut; pruning on an exact global state key: per-thread operation/value histories + channel and lock states): iterateModules on 9x9, 13x13 and the version-1 function-pattern matrix; encodeAlphaNumeric on all words <= 3 over {A,Z,:,a,é}; splitToBlocks(IterateBytes) for v1-L, v3-Q, v5-Q; eight whole qr.Encode calls (Numeric, AlphaNumeric, Unicode, Auto, two error-returning, two that fill version 1-L to within 3 bits of capacity; quick tier: Numeric and Auto only, with all non-preemptive schedules, preemption bound 0, plus the two error-returning calls with every schedule)")
-	c.R.Bound("S4", "free-running -race pass: {mixed, qr, rs} x goroutines {2,8,64} and {same: every operation of the alphabet in 2 or 8 goroutines at once} x GOMAXPROCS {1,2,4,16}, each in a fresh process (detector, not enumeration)")
+	c.R.Bound("S3e", "one whole qr.Encode per version 1..40 under the scheduler: default schedule and three probe schedules each (no branching)")
+	c.R.Bound("S4", "free-running -race pass: {mixed, qr, rs} x goroutines {2,8,64}, {same: every operation of the alphabet in 2 or 8 goroutines at once} and {qrall: one symbol of each version 1..40} x GOMAXPROCS {1,2,4,16} (QR modes also 3,5,6,7), each in a fresh process; observations are also compared with a GOMAXPROCS=1 baseline process (detector, not enumeration)")
 	c.R.Sample(map[string]any{"harness": "S1 0 2 3", "meaning": "two threads call Encode(_,2) and Encode(_,3) on one fresh encoder; all interleavings of the statements of reedsolomon.go with <= bound preemptions; oracle: both results == reference remainder, cache == reference generators"})
 	c.R.Sample(map[string]any{"harness": "S3b 0 A:a", "meaning": "every schedule of the alphanumeric producer/consumer pipeline on an input with an invalid third character; oracle: same result as alone, no goroutine left parked"})
 	_ = time.Now
@@ -543,6 +589,14 @@ func RaceOps(mode string) []RaceOp {
 		for _, d := range []int{30, 7, 13, 22, 2, 28, 17, 10} {
 			d := d
 			out = append(out, RaceOp{fmt.Sprintf("rs.Encode(%d)", d), func() string { return fmt.Sprint(enc.Encode(rsData("count", f, d), d)) }})
+		}
+	case "qrall":
+		// one symbol of every version 1..40 (version-dependent loops, remainder bits, block groups)
+		for v := 1; v <= 40; v++ {
+			v := v
+			content := string(qrFill(2, qrCap(2, v%4, v)))
+			lv := qrLevels[v%4]
+			out = append(out, RaceOp{fmt.Sprintf("qr v%d", v), func() string { return observe(qr.Encode(content, lv, qr.AlphaNumeric)) }})
 		}
 	default:
 		for _, o := range pureOps() {
